@@ -225,8 +225,8 @@ theorem modes_fuel_loadModel (cfg : Cfg) (cls : String) (fields : List Field)
   unfold loadModel
   split
   · exact modes_fuel_bindO
-      (modes_fuel_seqMode _ (modes_itemsRel_model (fun _ => modes_fuelLe_refl _) (fun _ => modes_fuelLe_refl _)
-        _ _ _ _ _ _ fun f _ v _ => h f v))
+      (modes_fuel_seqMode _ (modes_itemsRel_model _ _ _ _ (fun _ => modes_fuelLe_refl _) (modes_fuelLe_refl _)
+        _ _ fun f _ v _ => h f v))
       fun _ => modes_fuelLe_refl _
   · exact Or.inr rfl
 
